@@ -97,7 +97,7 @@ def check_commit_discipline(prog, rep, prop="C06"):
                     bad_n = [c for cn, c in ccommits.items() if cn not in good]
                     why = "a path from the statement reaches a normal exit without conditional_commit()/commit(): the write never counts towards the commit batch, so the uncommitted tail is unbounded"
                     if bad_n:
-                        why = f"conditional_commit({norm(bad_n[0].args[0]) if bad_n[0].args else ''}) does not count the rows written by this statement (expected {'len(' + (s.rows_var or 'rows') + ')' if s.many else '1'}): the counter under-counts and the tail is unbounded"
+                        why = f"conditional_commit({norm(bad_n[0].args[0]) if bad_n[0].args else ''}) does not follow / does not count the rows written by this statement (expected {'len(' + (s.rows_var or 'rows') + ')' if s.many else '1'}): the counter under-counts and the tail is unbounded"
                     rep.violation("COMMIT-B", fi.short, cons, why, s.loc(), path=w)
             if mname in ("insert_one", "replace", "replace_last", "delete"):
                 ok = len(ss) == 1 and not in_loop(ss[0].call) and not ss[0].many
@@ -192,6 +192,8 @@ def _count_arg_ok(ccall, site, fi):
     if isinstance(a, ast.Call) and isinstance(a.func, ast.Name) and a.func.id == "len" and len(a.args) == 1 and isinstance(a.args[0], ast.Name):
         if site.rows_var is not None and a.args[0].id == site.rows_var:
             return True
+        if getattr(site, "chunk_var", None) is not None and a.args[0].id == site.chunk_var:
+            return True  # rows are written chunk by chunk and counted chunk by chunk
         # len(events_insert) where rows is built one row per element of that list
         return _rows_built_from(fi, site.rows_var, a.args[0].id)
     return False
